@@ -156,7 +156,7 @@ func (h *Headers) Serialize(frh *FrameHeader) {
 		// prepend stream and weight to rawHeaders
 		h.rawHeaders = append(h.rawHeaders, 0, 0, 0, 0, 0)
 		copy(h.rawHeaders[5:], h.rawHeaders)
-		http2utils.Uint32ToBytes(h.rawHeaders[0:4], frh.stream)
+		http2utils.Uint32ToBytes(h.rawHeaders[0:4], h.stream)
 		h.rawHeaders[4] = h.weight
 	}
 
